@@ -2,6 +2,7 @@ import EpModel.Model.Io
 import EpModel.Model.Ipv6Exts
 import EpModel.Lemmas.CodecNetAuth
 import EpModel.Lemmas.CodecNetRawExt
+import EpModel.Lemmas.Ext
 /-
   C06, readers vs slices: every `read` function (read programs of Model/Io.lean, namespace `Reads`,
   tied to the code by the `io.read.*` correspondence of C16) against the `from_slice` of the same
@@ -1299,5 +1300,757 @@ theorem ipv4exts_table (start : Nat) (pre b : Bytes) :
     rw [ipv4exts_dec, if_neg hs]
 
 end Composite
+
+section Ipv6ExtsChain
+open EpModel.Ext
+
+/-! ### Ipv6Extensions: `Ipv6Extensions::read` (`Reads.ipv6exts`) against `Ipv6Extensions::from_slice`
+  (`Ext.Exts.fromSlice`, the model of C12, `ext.from_slice` correspondence) -/
+
+/-- all bytes a chain reader gathered, in reading order -/
+def gathered (got : List (ExtKind × Bytes)) : Bytes := (got.map (·.2)).flatten
+
+/-- decoding of one gathered header with the slice decoder of its type (what `read` returns for it) -/
+def decodeRaw (g : Bytes) : Option Raw :=
+  match rawSliceLen g with
+  | .ok len => (match rawToHeader g len with | .ok r => some r | .error _ => none)
+  | .error _ => none
+
+def decodeFrag (g : Bytes) : Option Frag :=
+  match fragFromSlice g with
+  | .ok f => some f
+  | .error _ => none
+
+def decodeAuth (g : Bytes) : Option Auth :=
+  match authSliceLen g with
+  | .ok len => (match authToHeader (ε := Ext.SliceErr) g len with | .ok a => some a | .error _ => none)
+  | .error _ => none
+
+/-- put one decoded header into the slot the reader filled -/
+def putGot (e : Exts) : ExtKind × Bytes → Option Exts
+  | (.hbh, g) => (decodeRaw g).map fun r => { e with hopByHopOptions := some r }
+  | (.dst, g) => (decodeRaw g).map fun r => { e with destinationOptions := some r }
+  | (.rt, g) => (decodeRaw g).map fun r =>
+      { e with routing := some { routing := r, finalDestinationOptions := none } }
+  | (.fdst, g) =>
+    match e.routing with
+    | some ro => (decodeRaw g).map fun r =>
+        { e with routing := some { routing := ro.routing, finalDestinationOptions := some r } }
+    | none => none
+  | (.frag, g) => (decodeFrag g).map fun f => { e with fragment := some f }
+  | (.auth, g) => (decodeAuth g).map fun a => { e with auth := some a }
+
+/-- `decode ∘ gather` for `Ipv6Extensions::read`: the struct the gathered headers make up -/
+def decodeGot (got : List (ExtKind × Bytes)) : Option Exts := got.foldlM putGot Exts.empty
+
+theorem decodeGot_snoc (got : List (ExtKind × Bytes)) (x : ExtKind × Bytes) (e : Exts)
+    (h : decodeGot got = some e) : decodeGot (got ++ [x]) = putGot e x := by
+  unfold decodeGot at h ⊢
+  rw [List.foldlM_append, h]
+  simp [List.foldlM]
+
+theorem gathered_snoc (got : List (ExtKind × Bytes)) (k : ExtKind) (g : Bytes) :
+    gathered (got ++ [(k, g)]) = gathered got ++ g := by
+  simp [gathered]
+
+/-! #### the per-header steps -/
+
+theorem rawSliceLen_ok (s : Bytes) (len : Nat) (h : rawSliceLen s = .ok len) :
+    len = rawextLen s ∧ 8 ≤ len ∧ len ≤ s.length := by
+  unfold rawSliceLen at h
+  unfold rawextLen
+  split at h
+  · cases h
+  · simp only at h
+    split at h
+    · cases h
+    · cases h; exact ⟨rfl, by omega, by omega⟩
+
+theorem rawSliceLen_err (s : Bytes) (err : LenError) (h : rawSliceLen s = .error err) :
+    s.length < 8 ∨ s.length < rawextLen s := by
+  unfold rawSliceLen at h
+  unfold rawextLen
+  split at h
+  · left; assumption
+  · simp only at h
+    split at h
+    · right; assumption
+    · cases h
+
+theorem newRaw_nextHeader (n : Nat) (p : Bytes) (r : Raw) (h : Raw.newRaw n p = .ok r) : r.nextHeader = n := by
+  unfold Raw.newRaw at h
+  repeat' split at h
+  all_goals first | contradiction | skip
+  cases h; rfl
+
+theorem decodeRaw_take (s : Bytes) (len : Nat) (header : Raw) (hl : rawSliceLen s = .ok len)
+    (hh : rawToHeader s len = .ok header) :
+    decodeRaw (s.take len) = some header ∧ header.nextHeader = bAt (s.take len) 0 := by
+  obtain ⟨e1, e2, e3⟩ := rawSliceLen_ok s len hl
+  have hlen : (s.take len).length = len := length_take_of_le s len e3
+  have h1 : rawSliceLen (s.take len) = .ok len := by
+    unfold rawSliceLen
+    rw [hlen, if_neg (by omega), bAt_take s len 1 (by omega)]
+    simp only
+    rw [if_neg (by unfold rawextLen at e1; omega)]
+    unfold rawextLen at e1; rw [e1]
+  have h2 : rawToHeader (s.take len) len = .ok header := by
+    rw [← hh]; unfold rawToHeader
+    rw [bAt_take s len 0 (by omega), sub_take s len 2 (len - 2) (by omega)]
+  refine ⟨by unfold decodeRaw; rw [h1]; simp only [h2], ?_⟩
+  rw [bAt_take s len 0 (by omega)]
+  unfold rawToHeader at hh
+  cases hn : Raw.newRaw (bAt s 0) (sub s 2 (len - 2)) with
+  | error e => rw [hn] at hh; cases hh
+  | ok r =>
+    rw [hn] at hh; cases hh
+    exact newRaw_nextHeader _ _ _ hn
+
+theorem step_raw {β : Type} (f : Bytes → RProg β) (s : Bytes) :
+    (∀ err, rawSliceLen s = .error err →
+      evalOn (Reads.rawext.bind f) s = (.error (.io .unexpectedEof), s.length)) ∧
+    (∀ len, rawSliceLen s = .ok len →
+      evalOn (Reads.rawext.bind f) s =
+        ((evalOn (f (s.take len)) (s.drop len)).1, len + (evalOn (f (s.take len)) (s.drop len)).2)) := by
+  refine ⟨fun err h => ?_, fun len h => ?_⟩
+  · rw [evalOn_bind, rawext_eval, if_pos (rawSliceLen_err s err h)]
+  · obtain ⟨e1, e2, e3⟩ := rawSliceLen_ok s len h
+    rw [evalOn_bind, rawext_eval, if_neg (by omega), ← e1]
+
+theorem fragFromSlice_err (s : Bytes) (err : LenError) (h : fragFromSlice s = .error err) : s.length < 8 := by
+  unfold fragFromSlice at h
+  split at h
+  · assumption
+  · cases h
+
+theorem decodeFrag_take (s : Bytes) (header : Frag) (h : fragFromSlice s = .ok header) :
+    8 ≤ s.length ∧ decodeFrag (s.take 8) = some header ∧ header.nextHeader = bAt (s.take 8) 0 := by
+  unfold fragFromSlice at h
+  split at h
+  · cases h
+  · rename_i h8
+    cases h
+    have hlen : (s.take 8).length = 8 := length_take_of_le s 8 (by omega)
+    refine ⟨by omega, ?_, by rw [bAt_take s 8 0 (by omega)]⟩
+    unfold decodeFrag fragFromSlice
+    rw [hlen, if_neg (by omega), bAt_take s 8 0 (by omega), be16_take s 8 2 (by omega),
+      bAt_take s 8 3 (by omega), be32_take s 8 4 (by omega)]
+
+theorem step_frag {β : Type} (f : Bytes → RProg β) (s : Bytes) :
+    (s.length < 8 → evalOn (Reads.ipv6frag.bind f) s = (.error (.io .unexpectedEof), s.length)) ∧
+    (8 ≤ s.length →
+      evalOn (Reads.ipv6frag.bind f) s =
+        ((evalOn (f (s.take 8)) (s.drop 8)).1, 8 + (evalOn (f (s.take 8)) (s.drop 8)).2)) := by
+  refine ⟨fun h => ?_, fun h => ?_⟩
+  · rw [evalOn_bind, Reads.ipv6frag, evalOn_readN, if_neg (by omega)]
+  · rw [evalOn_bind, Reads.ipv6frag, evalOn_readN, if_pos h]
+
+theorem authSliceLen_ok (s : Bytes) (len : Nat) (h : authSliceLen s = .ok len) :
+    len = authLen s ∧ 12 ≤ len ∧ len ≤ s.length ∧ ¬ s.length < 12 ∧ ¬ bAt s 1 < 1 := by
+  unfold authSliceLen at h
+  unfold authLen
+  split at h
+  · cases h
+  · simp only at h
+    split at h
+    · cases h
+    · split at h
+      · cases h
+      · cases h; exact ⟨rfl, by omega, by omega, by omega, by omega⟩
+
+theorem authSliceLen_len (s : Bytes) (err : LenError) (h : authSliceLen s = .error (.len err)) :
+    s.length < 12 ∨ (¬ s.length < 12 ∧ ¬ bAt s 1 < 1 ∧ s.length < authLen s) := by
+  unfold authSliceLen at h
+  unfold authLen
+  split at h
+  · left; assumption
+  · simp only at h
+    split at h
+    · cases h
+    · split at h
+      · right; exact ⟨by omega, by omega, by assumption⟩
+      · cases h
+
+theorem authSliceLen_content (s : Bytes) (err : AuthHeaderError) (h : authSliceLen s = .error (.content err)) :
+    ¬ s.length < 12 ∧ bAt s 1 < 1 := by
+  unfold authSliceLen at h
+  split at h
+  · cases h
+  · simp only at h
+    split at h
+    · exact ⟨by assumption, by assumption⟩
+    · split at h <;> cases h
+
+theorem authNew_nextHeader (n a c : Nat) (p : Bytes) (r : Auth) (h : Auth.new n a c p = .ok r) :
+    r.nextHeader = n := by
+  unfold Auth.new at h
+  repeat' split at h
+  all_goals first | contradiction | skip
+  cases h; rfl
+
+theorem decodeAuth_take (s : Bytes) (len : Nat) (header : Auth) (hl : authSliceLen s = .ok len)
+    (hh : authToHeader (ε := Ext.SliceErr) s len = .ok header) :
+    decodeAuth (s.take len) = some header ∧ header.nextHeader = bAt (s.take len) 0 := by
+  obtain ⟨e1, e2, e3, e4, e5⟩ := authSliceLen_ok s len hl
+  have hlen : (s.take len).length = len := length_take_of_le s len e3
+  have h1 : authSliceLen (s.take len) = .ok len := by
+    unfold authSliceLen
+    rw [hlen, if_neg (by omega), bAt_take s len 1 (by omega)]
+    simp only
+    rw [if_neg e5, if_neg (by unfold authLen at e1; omega)]
+    unfold authLen at e1; rw [e1]
+  have h2 : authToHeader (ε := Ext.SliceErr) (s.take len) len = .ok header := by
+    rw [← hh]; unfold authToHeader
+    rw [bAt_take s len 0 (by omega), be32_take s len 4 (by omega), be32_take s len 8 (by omega),
+      sub_take s len 12 (len - 12) (by omega)]
+  refine ⟨by unfold decodeAuth; rw [h1]; simp only [h2], ?_⟩
+  rw [bAt_take s len 0 (by omega)]
+  unfold authToHeader at hh
+  cases hn : Auth.new (bAt s 0) (be32 s 4) (be32 s 8) (sub s 12 (len - 12)) with
+  | error e => rw [hn] at hh; cases hh
+  | ok r =>
+    rw [hn] at hh; cases hh
+    exact authNew_nextHeader _ _ _ _ _ hn
+
+theorem step_auth {β : Type} (f : Bytes → RProg β) (s : Bytes) :
+    (∀ err, authSliceLen s = .error (.len err) →
+      evalOn (Reads.auth.bind f) s = (.error (.io .unexpectedEof), s.length)) ∧
+    (∀ err, authSliceLen s = .error (.content err) →
+      evalOn (Reads.auth.bind f) s = (.error (.other "err(zeropayloadlen)"), 12) ∧ 12 ≤ s.length) ∧
+    (∀ len, authSliceLen s = .ok len →
+      evalOn (Reads.auth.bind f) s =
+        ((evalOn (f (s.take len)) (s.drop len)).1, len + (evalOn (f (s.take len)) (s.drop len)).2)) := by
+  refine ⟨fun err h => ?_, fun err h => ?_, fun len h => ?_⟩
+  · rw [evalOn_bind, auth_eval]
+    rcases authSliceLen_len s err h with h1 | ⟨h1, h2, h3⟩
+    · rw [if_pos h1]
+    · rw [if_neg h1, if_neg h2, if_pos h3]
+  · obtain ⟨h1, h2⟩ := authSliceLen_content s err h
+    rw [evalOn_bind, auth_eval, if_neg h1, if_pos h2]
+    exact ⟨rfl, by omega⟩
+  · obtain ⟨e1, e2, e3, e4, e5⟩ := authSliceLen_ok s len h
+    rw [evalOn_bind, auth_eval, if_neg e4, if_neg e5, if_neg (by omega), ← e1]
+
+/-! #### the reader's loop, unfolded; the free-slot invariant -/
+
+theorem extsLoop_zero (free : List ExtKind) (got : List (ExtKind × Bytes)) :
+    Reads.extsLoop 0 free got = .done (.error "err(hbhnotatstart)") := by
+  rw [Reads.extsLoop]; simp
+
+theorem extsLoop_none (next : Nat) (free : List ExtKind) (got : List (ExtKind × Bytes)) (h0 : next ≠ 0)
+    (hs : Reads.slot next free = none) :
+    Reads.extsLoop next free got = .done (.ok { got := got, next := next }) := by
+  rw [Reads.extsLoop]; simp [h0, hs]
+
+theorem extsLoop_some (next : Nat) (free : List ExtKind) (got : List (ExtKind × Bytes)) (h0 : next ≠ 0)
+    (k : ExtKind) (hm : k ∈ free) (p : RProg Bytes) (hs : Reads.slot next free = some (⟨k, hm⟩, p)) :
+    Reads.extsLoop next free got =
+      p.bind fun b => Reads.extsLoop (bAt b 0) (free.erase k) (got ++ [(k, b)]) := by
+  rw [Reads.extsLoop]; simp [h0, hs]
+
+/-- the slots the reader still regards as free are the slots that are empty in the struct decoded so
+    far (`fdst`: the final destination options slot, which only exists behind a routing header) -/
+structure FreeInv (free : List ExtKind) (r : Exts) : Prop where
+  nodup : free.Nodup
+  dst : .dst ∈ free ↔ r.destinationOptions = none
+  rt : .rt ∈ free ↔ r.routing = none
+  frag : .frag ∈ free ↔ r.fragment = none
+  auth : .auth ∈ free ↔ r.auth = none
+  fdst : .fdst ∈ free ↔ ∀ ro, r.routing = some ro → ro.finalDestinationOptions = none
+
+theorem FreeInv.init (hbh : Option Raw) :
+    FreeInv [.dst, .rt, .frag, .auth, .fdst] { Exts.empty with hopByHopOptions := hbh } := by
+  refine ⟨by decide, ?_, ?_, ?_, ?_, ?_⟩ <;> simp [Exts.empty]
+
+theorem mem_erase_iff {free : List ExtKind} (hn : free.Nodup) (a k : ExtKind) :
+    a ∈ free.erase k ↔ a ≠ k ∧ a ∈ free := hn.mem_erase_iff
+
+theorem slot_stop_60_rt {free : List ExtKind} {r : Exts} (hi : FreeInv free r) (ro : Routing) (v : Raw)
+    (hr : r.routing = some ro) (hf : ro.finalDestinationOptions = some v) : Reads.slot 60 free = none := by
+  have h1 : .rt ∉ free := fun h => by have := hi.rt.1 h; rw [hr] at this; cases this
+  have h2 : .fdst ∉ free := fun h => by have := hi.fdst.1 h ro hr; rw [hf] at this; cases this
+  simp [Reads.slot, h1, h2]
+
+theorem slot_go_60_fdst {free : List ExtKind} {r : Exts} (hi : FreeInv free r) (ro : Routing)
+    (hr : r.routing = some ro) (hf : ro.finalDestinationOptions = none) :
+    ∃ hm, Reads.slot 60 free = some (⟨.fdst, hm⟩, Reads.rawext) := by
+  have h1 : .rt ∉ free := fun h => by have := hi.rt.1 h; rw [hr] at this; cases this
+  have h2 : .fdst ∈ free := hi.fdst.2 fun ro' h => by rw [hr] at h; cases h; exact hf
+  exact ⟨h2, by simp [Reads.slot, h1, h2]⟩
+
+theorem slot_stop_60_dst {free : List ExtKind} {r : Exts} (hi : FreeInv free r) (v : Raw)
+    (hr : r.routing = none) (hd : r.destinationOptions = some v) : Reads.slot 60 free = none := by
+  have h1 : .rt ∈ free := hi.rt.2 hr
+  have h2 : .dst ∉ free := fun h => by have := hi.dst.1 h; rw [hd] at this; cases this
+  simp [Reads.slot, h1, h2]
+
+theorem slot_go_60_dst {free : List ExtKind} {r : Exts} (hi : FreeInv free r)
+    (hr : r.routing = none) (hd : r.destinationOptions = none) :
+    ∃ hm, Reads.slot 60 free = some (⟨.dst, hm⟩, Reads.rawext) := by
+  have h1 : .rt ∈ free := hi.rt.2 hr
+  have h2 : .dst ∈ free := hi.dst.2 hd
+  exact ⟨h2, by simp [Reads.slot, h1, h2]⟩
+
+theorem slot_stop_43 {free : List ExtKind} {r : Exts} (hi : FreeInv free r) (ro : Routing)
+    (hr : r.routing = some ro) : Reads.slot 43 free = none := by
+  have h1 : .rt ∉ free := fun h => by have := hi.rt.1 h; rw [hr] at this; cases this
+  simp [Reads.slot, h1]
+
+theorem slot_go_43 {free : List ExtKind} {r : Exts} (hi : FreeInv free r) (hr : r.routing = none) :
+    ∃ hm, Reads.slot 43 free = some (⟨.rt, hm⟩, Reads.rawext) := by
+  have h1 : .rt ∈ free := hi.rt.2 hr
+  exact ⟨h1, by simp [Reads.slot, h1]⟩
+
+theorem slot_stop_44 {free : List ExtKind} {r : Exts} (hi : FreeInv free r) (v : Frag)
+    (hr : r.fragment = some v) : Reads.slot 44 free = none := by
+  have h1 : .frag ∉ free := fun h => by have := hi.frag.1 h; rw [hr] at this; cases this
+  simp [Reads.slot, h1]
+
+theorem slot_go_44 {free : List ExtKind} {r : Exts} (hi : FreeInv free r) (hr : r.fragment = none) :
+    ∃ hm, Reads.slot 44 free = some (⟨.frag, hm⟩, Reads.ipv6frag) := by
+  have h1 : .frag ∈ free := hi.frag.2 hr
+  exact ⟨h1, by simp [Reads.slot, h1]⟩
+
+theorem slot_stop_51 {free : List ExtKind} {r : Exts} (hi : FreeInv free r) (v : Auth)
+    (hr : r.auth = some v) : Reads.slot 51 free = none := by
+  have h1 : .auth ∉ free := fun h => by have := hi.auth.1 h; rw [hr] at this; cases this
+  simp [Reads.slot, h1]
+
+theorem slot_go_51 {free : List ExtKind} {r : Exts} (hi : FreeInv free r) (hr : r.auth = none) :
+    ∃ hm, Reads.slot 51 free = some (⟨.auth, hm⟩, Reads.auth) := by
+  have h1 : .auth ∈ free := hi.auth.2 hr
+  exact ⟨h1, by simp [Reads.slot, h1]⟩
+
+theorem slot_stop_other (free : List ExtKind) (n : Nat) (h60 : n ≠ 60) (h43 : n ≠ 43) (h44 : n ≠ 44)
+    (h51 : n ≠ 51) : Reads.slot n free = none := by
+  simp [Reads.slot, h60, h43, h44, h51]
+
+/-! invariant after filling a slot -/
+
+theorem FreeInv.fill_fdst {free : List ExtKind} {r : Exts} (hi : FreeInv free r) (ro : Routing) (h : Raw)
+    (hr : r.routing = some ro) :
+    FreeInv (free.erase .fdst)
+      { hopByHopOptions := r.hopByHopOptions, destinationOptions := r.destinationOptions,
+        routing := some { routing := ro.routing, finalDestinationOptions := some h },
+        fragment := r.fragment, auth := r.auth } := by
+  have hn := hi.nodup
+  refine ⟨hn.erase _, ?_, ?_, ?_, ?_, ?_⟩ <;> simp only [mem_erase_iff hn]
+  · simpa using hi.dst
+  · simp; intro h; have := hi.rt.1 h; rw [hr] at this; cases this
+  · simpa using hi.frag
+  · simpa using hi.auth
+  · simp
+
+theorem FreeInv.fill_dst {free : List ExtKind} {r : Exts} (hi : FreeInv free r) (h : Raw) :
+    FreeInv (free.erase .dst)
+      { hopByHopOptions := r.hopByHopOptions, destinationOptions := some h, routing := r.routing,
+        fragment := r.fragment, auth := r.auth } := by
+  have hn := hi.nodup
+  refine ⟨hn.erase _, ?_, ?_, ?_, ?_, ?_⟩ <;> simp only [mem_erase_iff hn]
+  · simp
+  · simpa using hi.rt
+  · simpa using hi.frag
+  · simpa using hi.auth
+  · simpa using hi.fdst
+
+theorem FreeInv.fill_rt {free : List ExtKind} {r : Exts} (hi : FreeInv free r) (h : Raw)
+    (hr : r.routing = none) :
+    FreeInv (free.erase .rt)
+      { hopByHopOptions := r.hopByHopOptions, destinationOptions := r.destinationOptions,
+        routing := some { routing := h, finalDestinationOptions := none },
+        fragment := r.fragment, auth := r.auth } := by
+  have hn := hi.nodup
+  refine ⟨hn.erase _, ?_, ?_, ?_, ?_, ?_⟩ <;> simp only [mem_erase_iff hn]
+  · simpa using hi.dst
+  · simp
+  · simpa using hi.frag
+  · simpa using hi.auth
+  · simp; exact hi.fdst.2 (fun ro h => by rw [hr] at h; cases h)
+
+theorem FreeInv.fill_frag {free : List ExtKind} {r : Exts} (hi : FreeInv free r) (h : Frag) :
+    FreeInv (free.erase .frag)
+      { hopByHopOptions := r.hopByHopOptions, destinationOptions := r.destinationOptions,
+        routing := r.routing, fragment := some h, auth := r.auth } := by
+  have hn := hi.nodup
+  refine ⟨hn.erase _, ?_, ?_, ?_, ?_, ?_⟩ <;> simp only [mem_erase_iff hn]
+  · simpa using hi.dst
+  · simpa using hi.rt
+  · simp
+  · simpa using hi.auth
+  · simpa using hi.fdst
+
+theorem FreeInv.fill_auth {free : List ExtKind} {r : Exts} (hi : FreeInv free r) (h : Auth) :
+    FreeInv (free.erase .auth)
+      { hopByHopOptions := r.hopByHopOptions, destinationOptions := r.destinationOptions,
+        routing := r.routing, fragment := r.fragment, auth := some h } := by
+  have hn := hi.nodup
+  refine ⟨hn.erase _, ?_, ?_, ?_, ?_, ?_⟩ <;> simp only [mem_erase_iff hn]
+  · simpa using hi.dst
+  · simpa using hi.rt
+  · simpa using hi.frag
+  · simp
+  · simpa using hi.fdst
+
+/-! #### the two loops, step by step -/
+
+/-- canonical text of the content errors of `Ipv6Extensions::from_slice` (as `Reads.ipv6exts` and the
+    drivers print them) -/
+def extsErrText : HeaderError → String
+  | .hopByHopNotAtStart => "err(hbhnotatstart)"
+  | .ipAuth .zeroPayloadLen => "err(zeropayloadlen)"
+
+/-- outcome of the slice decoder's loop (standing at `rest`, headers `got` gathered so far) against the
+    outcome of the reader's loop on the same bytes (`out` = result and bytes consumed) -/
+def LoopRel (rest : Bytes) (got : List (ExtKind × Bytes)) :
+    Except (Fault Ext.SliceErr) (Exts × Nat × Bytes) → Except RErr Reads.ExtsRead × Nat → Prop
+  | .ok (e, n, rest'), out =>
+    ∃ got', out = (.ok { got := got', next := n }, rest.length - rest'.length) ∧
+      rest = rest.take (rest.length - rest'.length) ++ rest' ∧
+      gathered got' = gathered got ++ rest.take (rest.length - rest'.length) ∧
+      decodeGot got' = some e
+  | .error (.err (.len _)), out => out = (.error (.io .unexpectedEof), rest.length)
+  | .error (.err (.content c)), out => ∃ n, n ≤ rest.length ∧ out = (.error (.other (extsErrText c)), n)
+  | .error .panic, _ => False
+
+/-- one header of `len` bytes read in front: the relation moves from the rest to the whole -/
+theorem LoopRel.lift (rest : Bytes) (got : List (ExtKind × Bytes)) (k : ExtKind) (len : Nat)
+    (hlen : len ≤ rest.length) (o : Except (Fault Ext.SliceErr) (Exts × Nat × Bytes))
+    (out : Except RErr Reads.ExtsRead × Nat)
+    (h : LoopRel (rest.drop len) (got ++ [(k, rest.take len)]) o out) :
+    LoopRel rest got o (out.1, len + out.2) := by
+  cases o with
+  | ok x =>
+    obtain ⟨e, n, rest'⟩ := x
+    obtain ⟨got', h1, h2, h3, h4⟩ := h
+    have hl : (rest.drop len).length = rest.length - len := List.length_drop
+    have hr' : rest'.length ≤ rest.length - len := by
+      have := congrArg List.length h2
+      rw [List.length_append, List.length_take, hl] at this
+      omega
+    have hsum : len + (rest.length - len - rest'.length) = rest.length - rest'.length := by omega
+    rw [hl] at h1 h2 h3
+    refine ⟨got', ?_, ?_, ?_, h4⟩
+    · rw [h1]; simp only [Prod.mk.injEq, true_and]; exact hsum
+    · rw [← hsum, List.take_add, List.append_assoc, ← h2, List.take_append_drop]
+    · rw [h3, gathered_snoc, ← hsum, List.take_add, List.append_assoc]
+  | error f =>
+    cases f with
+    | panic => exact h
+    | err se =>
+      cases se with
+      | len le =>
+        have h' : out = (.error (.io .unexpectedEof), (rest.drop len).length) := h
+        show (out.1, len + out.2) = _
+        rw [h']; simp only [List.length_drop, Prod.mk.injEq, true_and]; omega
+      | content c =>
+        obtain ⟨n, hn, h'⟩ := h
+        refine ⟨len + n, ?_, ?_⟩
+        · simp only [List.length_drop] at hn; omega
+        · rw [h']
+
+theorem LoopRel.stop (rest : Bytes) (got : List (ExtKind × Bytes)) (result : Exts) (n : Nat)
+    (hg : decodeGot got = some result) :
+    LoopRel rest got (.ok (result, n, rest)) (evalOn (.done (.ok { got := got, next := n })) rest) := by
+  refine ⟨got, ?_, ?_, ?_, hg⟩ <;> simp [evalOn]
+
+theorem LoopRel.lenErr (slice rest : Bytes) (got : List (ExtKind × Bytes)) (err : LenError)
+    (hle : rest.length ≤ slice.length) (out : Except RErr Reads.ExtsRead × Nat)
+    (h : out = (.error (.io .unexpectedEof), rest.length)) :
+    LoopRel rest got (.error (lenErrAt slice rest err)) out := by
+  unfold lenErrAt; rw [if_pos hle]; exact h
+
+theorem loop_rel (slice : Bytes) (result : Exts) (rest : Bytes) (next : Nat)
+    (free : List ExtKind) (got : List (ExtKind × Bytes))
+    (hi : FreeInv free result) (hg : decodeGot got = some result) (hle : rest.length ≤ slice.length) :
+    LoopRel rest got (fromSliceLoop slice result rest next)
+      (evalOn (Reads.extsLoop next free got) rest) := by
+  fun_induction fromSliceLoop slice result rest next generalizing free got
+  case case1 result rest =>
+    rw [extsLoop_zero]; exact ⟨0, Nat.zero_le _, rfl⟩
+  case case2 result rest routing hr val hf =>
+    rw [extsLoop_none _ _ _ (by decide) (slot_stop_60_rt hi routing val hr hf)]
+    exact LoopRel.stop rest got result 60 hg
+  case case3 result rest routing hr hf err hl =>
+    obtain ⟨hm, hs⟩ := slot_go_60_fdst hi routing hr hf
+    rw [extsLoop_some _ _ _ (by decide) _ hm _ hs]
+    exact LoopRel.lenErr slice rest got err hle _ ((step_raw _ rest).1 err hl)
+  case case4 result rest routing hr hf len hl f hh =>
+    obtain ⟨r, hr'⟩ := rawToHeader_ok _ _ hl; rw [hr'] at hh; cases hh
+  case case5 result rest routing hr hf len hl header hh ih =>
+    obtain ⟨hm, hs⟩ := slot_go_60_fdst hi routing hr hf
+    obtain ⟨e1, e2, e3⟩ := rawSliceLen_ok rest len hl
+    obtain ⟨d1, d2⟩ := decodeRaw_take rest len header hl hh
+    rw [extsLoop_some _ _ _ (by decide) _ hm _ hs, (step_raw _ rest).2 len hl]
+    apply LoopRel.lift rest got .fdst len e3
+    rw [← d2]
+    refine ih _ _ (hi.fill_fdst routing header hr) ?_ (by simp only [List.length_drop]; omega)
+    rw [decodeGot_snoc got _ result hg]
+    simp only [putGot, hr, d1, Option.map_some]
+  case case6 result rest hr val hd =>
+    rw [extsLoop_none _ _ _ (by decide) (slot_stop_60_dst hi val hr hd)]
+    exact LoopRel.stop rest got result 60 hg
+  case case7 result rest hr hd err hl =>
+    obtain ⟨hm, hs⟩ := slot_go_60_dst hi hr hd
+    rw [extsLoop_some _ _ _ (by decide) _ hm _ hs]
+    exact LoopRel.lenErr slice rest got err hle _ ((step_raw _ rest).1 err hl)
+  case case8 result rest hr hd len hl f hh =>
+    obtain ⟨r, hr'⟩ := rawToHeader_ok _ _ hl; rw [hr'] at hh; cases hh
+  case case9 result rest hr hd len hl header hh ih =>
+    obtain ⟨hm, hs⟩ := slot_go_60_dst hi hr hd
+    obtain ⟨e1, e2, e3⟩ := rawSliceLen_ok rest len hl
+    obtain ⟨d1, d2⟩ := decodeRaw_take rest len header hl hh
+    rw [extsLoop_some _ _ _ (by decide) _ hm _ hs, (step_raw _ rest).2 len hl]
+    apply LoopRel.lift rest got .dst len e3
+    rw [← d2]
+    refine ih _ _ (hi.fill_dst header) ?_ (by simp only [List.length_drop]; omega)
+    rw [decodeGot_snoc got _ result hg]
+    simp only [putGot, d1, Option.map_some]
+  case case10 result rest routing hr =>
+    rw [extsLoop_none _ _ _ (by decide) (slot_stop_43 hi routing hr)]
+    exact LoopRel.stop rest got result 43 hg
+  case case11 result rest hr err hl =>
+    obtain ⟨hm, hs⟩ := slot_go_43 hi hr
+    rw [extsLoop_some _ _ _ (by decide) _ hm _ hs]
+    exact LoopRel.lenErr slice rest got err hle _ ((step_raw _ rest).1 err hl)
+  case case12 result rest hr len hl f hh =>
+    obtain ⟨r, hr'⟩ := rawToHeader_ok _ _ hl; rw [hr'] at hh; cases hh
+  case case13 result rest hr len hl header hh ih =>
+    obtain ⟨hm, hs⟩ := slot_go_43 hi hr
+    obtain ⟨e1, e2, e3⟩ := rawSliceLen_ok rest len hl
+    obtain ⟨d1, d2⟩ := decodeRaw_take rest len header hl hh
+    rw [extsLoop_some _ _ _ (by decide) _ hm _ hs, (step_raw _ rest).2 len hl]
+    apply LoopRel.lift rest got .rt len e3
+    rw [← d2]
+    refine ih _ _ (hi.fill_rt header hr) ?_ (by simp only [List.length_drop]; omega)
+    rw [decodeGot_snoc got _ result hg]
+    simp only [putGot, d1, Option.map_some]
+  case case14 result rest val hf =>
+    rw [extsLoop_none _ _ _ (by decide) (slot_stop_44 hi val hf)]
+    exact LoopRel.stop rest got result 44 hg
+  case case15 result rest hf err hl =>
+    obtain ⟨hm, hs⟩ := slot_go_44 hi hf
+    rw [extsLoop_some _ _ _ (by decide) _ hm _ hs]
+    exact LoopRel.lenErr slice rest got err hle _ ((step_frag _ rest).1 (fragFromSlice_err rest err hl))
+  case case16 result rest hf header hh ih =>
+    obtain ⟨hm, hs⟩ := slot_go_44 hi hf
+    obtain ⟨e3, d1, d2⟩ := decodeFrag_take rest header hh
+    rw [extsLoop_some _ _ _ (by decide) _ hm _ hs, (step_frag _ rest).2 e3]
+    apply LoopRel.lift rest got .frag 8 e3
+    rw [← d2]
+    refine ih _ _ (hi.fill_frag header) ?_ (by simp only [List.length_drop]; omega)
+    rw [decodeGot_snoc got _ result hg]
+    simp only [putGot, d1, Option.map_some]
+  case case17 result rest val ha =>
+    rw [extsLoop_none _ _ _ (by decide) (slot_stop_51 hi val ha)]
+    exact LoopRel.stop rest got result 51 hg
+  case case18 result rest ha err hl =>
+    obtain ⟨hm, hs⟩ := slot_go_51 hi ha
+    rw [extsLoop_some _ _ _ (by decide) _ hm _ hs]
+    exact LoopRel.lenErr slice rest got err hle _ ((step_auth _ rest).1 err hl)
+  case case19 result rest ha err hl =>
+    obtain ⟨hm, hs⟩ := slot_go_51 hi ha
+    rw [extsLoop_some _ _ _ (by decide) _ hm _ hs]
+    obtain ⟨h1, h2⟩ := (step_auth _ rest).2.1 err hl
+    cases err
+    exact ⟨12, h2, h1⟩
+  case case20 result rest ha len hl f hh =>
+    obtain ⟨r, hr'⟩ := authToHeader_ok (ε := Ext.SliceErr) _ _ hl; rw [hr'] at hh; cases hh
+  case case21 result rest ha len hl header hh ih =>
+    obtain ⟨hm, hs⟩ := slot_go_51 hi ha
+    obtain ⟨e1, e2, e3, _, _⟩ := authSliceLen_ok rest len hl
+    obtain ⟨d1, d2⟩ := decodeAuth_take rest len header hl hh
+    rw [extsLoop_some _ _ _ (by decide) _ hm _ hs, (step_auth _ rest).2.2 len hl]
+    apply LoopRel.lift rest got .auth len e3
+    rw [← d2]
+    refine ih _ _ (hi.fill_auth header) ?_ (by simp only [List.length_drop]; omega)
+    rw [decodeGot_snoc got _ result hg]
+    simp only [putGot, d1, Option.map_some]
+  case case22 result rest n h0 h60 h43 h44 h51 =>
+    rw [extsLoop_none _ _ _ (fun h => h0 h) (slot_stop_other free n (fun h => h60 h) (fun h => h43 h)
+      (fun h => h44 h) (fun h => h51 h))]
+    exact LoopRel.stop rest got result n hg
+
+theorem ipv6exts_rel (start : Nat) (b : Bytes) :
+    LoopRel b [] (Exts.fromSlice start b) (evalOn (Reads.ipv6exts start) b) := by
+  unfold Exts.fromSlice Reads.ipv6exts
+  by_cases hs : start = 0
+  · subst hs
+    simp only [if_true]
+    cases hl : rawSliceLen b with
+    | error err => exact (step_raw _ b).1 err hl
+    | ok len =>
+      simp only
+      obtain ⟨header, hh⟩ := rawToHeader_ok _ _ hl
+      obtain ⟨e1, e2, e3⟩ := rawSliceLen_ok b len hl
+      obtain ⟨d1, d2⟩ := decodeRaw_take b len header hl hh
+      rw [hh, (step_raw _ b).2 len hl]
+      simp only
+      apply LoopRel.lift b [] .hbh len e3
+      rw [← d2]
+      refine loop_rel b _ _ _ _ _ (FreeInv.init (some header)) ?_ (by simp only [List.length_drop]; omega)
+      simp [decodeGot, List.foldlM, putGot, d1]
+  · rw [if_neg (fun h => hs h.symm), if_neg hs]
+    exact loop_rel b _ _ _ _ _ (FreeInv.init none) rfl (Nat.le_refl _)
+
+/-- the table for `Ipv6Extensions`: `got` = the bytes the reader gathered for each header, in reading
+    order; concatenated they are exactly the bytes in front of `rest`, and decoded header by header
+    (`decodeGot`) they make up the struct `from_slice` returns -/
+theorem ipv6exts_table (start : Nat) (pre b : Bytes) :
+    match Exts.fromSlice start b with
+    | .ok (e, next, rest) =>
+      ∃ got, ReadsOk (Reads.ipv6exts start) pre b (b.length - rest.length) { got := got, next := next } ∧
+        b = b.take (b.length - rest.length) ++ rest ∧
+        gathered got = b.take (b.length - rest.length) ∧ decodeGot got = some e
+    | .error (.err (.len _)) => ReadsEof (Reads.ipv6exts start) pre b
+    | .error (.err (.content c)) =>
+      ∃ n, n ≤ b.length ∧ ReadsContent (Reads.ipv6exts start) pre b n (extsErrText c)
+    | .error .panic => False := by
+  have h := ipv6exts_rel start b
+  cases hd : Exts.fromSlice start b with
+  | ok x =>
+    obtain ⟨e, n, rest⟩ := x
+    rw [hd] at h
+    obtain ⟨got', h1, h2, h3, h4⟩ := h
+    exact ⟨got', readsOk_of_eval h1, h2, by simpa [gathered] using h3, h4⟩
+  | error f =>
+    rw [hd] at h
+    cases f with
+    | panic => exact h
+    | err se =>
+      cases se with
+      | len le => exact readsEof_of_eval h
+      | content c =>
+        obtain ⟨n, hn, h'⟩ := h
+        exact ⟨n, hn, readsContent_of_eval h'⟩
+
+end Ipv6ExtsChain
+
+section LimitedReaders
+
+/-! ## LimitedReader over a byte string -/
+
+theorem readExact_adv_zero (pre b : Bytes) (m : Nat) :
+    (readerAdv pre b m).readExact 0 = (readerAdv pre b m, .ok []) := by simp [Reader.readExact]
+
+theorem readExact_adv_ok (pre b : Bytes) (m n : Nat) (hn : n ≠ 0) (hfit : m + n ≤ b.length) :
+    (readerAdv pre b m).readExact n = (readerAdv pre b (m + n), .ok ((b.drop m).take n)) := by
+  have e2 : List.drop (pre.length + m) pre = [] := List.drop_eq_nil_of_le (by omega)
+  simp [Reader.readExact, readerAdv, Reader.limit, hn, sub, List.drop_append, e2, Nat.add_assoc, hfit]
+
+theorem readExact_adv_eof (pre b : Bytes) (m n : Nat) (hm : m ≤ b.length) (hfit : ¬ m + n ≤ b.length) :
+    (readerAdv pre b m).readExact n = (readerAdv pre b b.length, .error .unexpectedEof) := by
+  have hn : n ≠ 0 := by omega
+  have e1 : ¬ pre.length + m + n ≤ pre.length + b.length := by omega
+  have e2 : max m b.length = b.length := by omega
+  simp [Reader.readExact, readerAdv, Reader.limit, Reader.dryError, hn, e1, e2]
+
+/-- `read_exact(n)` on the reader `m` bytes into `b` -/
+theorem readExact_adv (pre b : Bytes) (m n : Nat) (hm : m ≤ b.length) :
+    (readerAdv pre b m).readExact n =
+      if n ≤ (b.drop m).length then (readerAdv pre b (m + n), .ok ((b.drop m).take n))
+      else (readerAdv pre b b.length, .error .unexpectedEof) := by
+  by_cases hfit : n ≤ (b.drop m).length
+  · rw [if_pos hfit]
+    by_cases hn : n = 0
+    · subst hn; rw [readExact_adv_zero]; simp
+    · exact readExact_adv_ok pre b m n hn (by simp at hfit; omega)
+  · rw [if_neg hfit]
+    exact readExact_adv_eof pre b m n hm (by simp at hfit; omega)
+
+/-- the bookkeeping fields of a `LimitedReader` -/
+structure LSt where
+  maxLen : Nat
+  readLen : Nat
+  layerOffset : Nat
+  layer : String
+  src : String
+
+/-- bookkeeping after a successful `read_exact(n)` -/
+def LSt.adv (st : LSt) (n : Nat) : LSt :=
+  { maxLen := st.maxLen, readLen := st.readLen + n, layerOffset := st.layerOffset, layer := st.layer,
+    src := st.src }
+
+/-- bookkeeping after `start_layer(layer)` -/
+def LSt.started (st : LSt) (layer : String) : LSt :=
+  { maxLen := st.maxLen - st.readLen, readLen := 0, layerOffset := st.layerOffset + st.readLen,
+    layer := layer, src := st.src }
+
+/-- the length error a `LimitedReader` reports when `n` more bytes exceed the limit -/
+def LSt.lenErr (st : LSt) (n : Nat) : LenErr :=
+  { required := st.readLen + n, len := st.maxLen, src := st.src, layer := st.layer, off := st.layerOffset }
+
+/-- the `LimitedReader` with bookkeeping `st` around the reader `m` bytes into `b` -/
+def limitedAdv (pre b : Bytes) (m : Nat) (st : LSt) : Limited :=
+  { inner := readerAdv pre b m, maxLen := st.maxLen, lenSource := st.src, layer := st.layer,
+    layerOffset := st.layerOffset, readLen := st.readLen, panicked := false }
+
+/-- byte-string semantics of a limited read program: result, bytes consumed, bookkeeping afterwards -/
+def evalOnL {α : Type} : LProg α → LSt → Bytes → Except LErr α × Nat × LSt
+  | .done (.ok a), st, _ => (.ok a, 0, st)
+  | .done (.error s), st, _ => (.error (.other s), 0, st)
+  | .read n k, st, b =>
+    if st.maxLen - st.readLen < n then (.error (.len (st.lenErr n)), 0, st)
+    else if n ≤ b.length then
+      ((evalOnL (k (b.take n)) (st.adv n) (b.drop n)).1, n + (evalOnL (k (b.take n)) (st.adv n) (b.drop n)).2.1,
+        (evalOnL (k (b.take n)) (st.adv n) (b.drop n)).2.2)
+    else (.error (.io .unexpectedEof), b.length, st)
+  | .start layer k, st, b => evalOnL k (st.started layer) b
+
+theorem limited_readExact_adv (pre b : Bytes) (m : Nat) (st : LSt) (n : Nat) (hm : m ≤ b.length)
+    (hst : st.readLen ≤ st.maxLen) :
+    (limitedAdv pre b m st).readExact n =
+      if st.maxLen - st.readLen < n then (limitedAdv pre b m st, .error (.len (st.lenErr n)))
+      else if n ≤ (b.drop m).length then
+        (limitedAdv pre b (m + n) (st.adv n), .ok ((b.drop m).take n))
+      else (limitedAdv pre b b.length st, .error (.io .unexpectedEof)) := by
+  have h1 : ¬ (limitedAdv pre b m st).maxLen < (limitedAdv pre b m st).readLen := by
+    simp only [limitedAdv]; omega
+  unfold Limited.readExact
+  rw [if_neg h1]
+  by_cases hlim : st.maxLen - st.readLen < n
+  · rw [if_pos hlim, if_pos (by simpa [limitedAdv] using hlim)]
+    rfl
+  · rw [if_neg hlim, if_neg (by simpa [limitedAdv] using hlim)]
+    have : (limitedAdv pre b m st).inner = readerAdv pre b m := rfl
+    rw [this, readExact_adv pre b m n hm]
+    by_cases hfit : n ≤ (b.drop m).length
+    · rw [if_pos hfit, if_pos hfit]; rfl
+    · rw [if_neg hfit, if_neg hfit]; rfl
+
+theorem runL_adv {α : Type} (p : LProg α) (pre b : Bytes) (m : Nat) (st : LSt) (hm : m ≤ b.length)
+    (hst : st.readLen ≤ st.maxLen) :
+    p.run (limitedAdv pre b m st) =
+      (limitedAdv pre b (m + (evalOnL p st (b.drop m)).2.1) (evalOnL p st (b.drop m)).2.2,
+       (evalOnL p st (b.drop m)).1) := by
+  induction p generalizing m st with
+  | done res => cases res <;> simp [LProg.run, evalOnL]
+  | read n k ih =>
+    simp only [LProg.run, evalOnL]
+    rw [limited_readExact_adv pre b m st n hm hst]
+    by_cases hlim : st.maxLen - st.readLen < n
+    · simp only [if_pos hlim, Nat.add_zero]
+    · simp only [if_neg hlim]
+      by_cases hfit : n ≤ (b.drop m).length
+      · simp only [if_pos hfit]
+        have hfit' : m + n ≤ b.length := by simp at hfit; omega
+        rw [ih ((b.drop m).take n) (m + n) (st.adv n) hfit' (by simp only [LSt.adv]; omega)]
+        simp only [List.drop_drop, Nat.add_assoc]
+      · simp only [if_neg hfit]
+        simp at hfit
+        have : m + (b.length - m) = b.length := by omega
+        simp only [List.length_drop, this]
+  | start layer k ih =>
+    simp only [LProg.run, evalOnL]
+    have hs : (limitedAdv pre b m st).startLayer layer = limitedAdv pre b m (st.started layer) := by
+      unfold Limited.startLayer
+      rw [if_pos (show (limitedAdv pre b m st).readLen ≤ (limitedAdv pre b m st).maxLen from hst)]
+      rfl
+    rw [hs]
+    have : (limitedAdv pre b m (st.started layer)).panicked = false := rfl
+    rw [this]
+    simp only [Bool.false_eq_true, if_false]
+    exact ih m _ hm (by simp [LSt.started])
+
+end LimitedReaders
 
 end EpModel.Lemmas.ReadVsSlice
